@@ -17,6 +17,8 @@ _loaded = False
 def load() -> Any:
     """Import aioesphomeapi from REPO and silence its logging."""
     global _loaded
+    if _loaded:
+        return sys.modules["aioesphomeapi"]
     if REPO not in sys.path[:1]:
         sys.path.insert(0, REPO)
     import aioesphomeapi  # noqa: F401
